@@ -142,7 +142,7 @@ OBSERVED = {}
 def machinery(chk, msg):
     """A replay that cannot be driven: a machinery failure on a conforming implementation; on one that already
     disagrees with the specification the violations found so far are the report."""
-    if not chk.violations:
+    if not chk.disagreements:
         raise common.MachineryError(msg)
     OBSERVED["not driven: " + msg] = 1
 
@@ -156,7 +156,7 @@ def observe(what, value=None):
 def control(chk, rejected, what):
     """On an implementation that already disagrees with the specification a corrupted expectation may
     coincide with the (wrong) behaviour: the control cannot be judged then."""
-    if not rejected and chk.violations:
+    if not rejected and chk.disagreements:
         return
     chk.control(rejected, what)
 
@@ -392,7 +392,7 @@ def _picker(chk, cases):
         for c in cases:
             if pred(c):
                 return copy.deepcopy(c)
-        if chk.violations:
+        if chk.disagreements:
             raise _NoDonor(what)
         raise common.MachineryError("no donor case for a negative control: " + what)
     return pick
@@ -1479,7 +1479,7 @@ def run(chk, tier, seed):
             chk.add_tlc(r, "control: " + what)
             chk.control(r.violation is not None, "specification control held although it must fail: " + what)
     info["observed"] = dict(sorted(OBSERVED.items()))
-    if missing and not chk.violations:
+    if missing and not chk.disagreements:
         raise common.MachineryError("no donor call for the negative control(s): " + "; ".join(missing))
 
     chk.assumptions += [
